@@ -325,6 +325,20 @@ def _neg(cfg: CFG, branches: Set[int]) -> Set[int]:
     return out
 
 
+def _table_dispatch(loop: ast.For, ev: Optional[str]) -> bool:
+    """the loop selects what to do by looking the event kind up in a table (``T[ev]`` /
+    ``T.get(ev)``) instead of testing it: the dispatch is data, which this rule does not follow"""
+    if ev is None:
+        return False
+    for x in ast.walk(loop):
+        if isinstance(x, ast.Subscript) and attr_path(x.slice) == (ev,):
+            return True
+        if isinstance(x, ast.Call) and isinstance(x.func, ast.Attribute) and x.func.attr == "get" \
+                and x.args and attr_path(x.args[0]) == (ev,):
+            return True
+    return False
+
+
 def _get(chk: Check, lt: ClassInfo) -> None:
     f = lt.methods.get("get")
     if f is None:
@@ -395,7 +409,8 @@ def _get(chk: Check, lt: ClassInfo) -> None:
             chk.ob("R12.4", "LazyIntervalTree.get:replay-applies-all-in-order", good, f.loc(n),
                    "the replay branch must walk self._interval_events in queue order and apply "
                    "ADDED -> add(interval), every other event -> discard(interval), skipping none "
-                   "(in order: %s, applied: %s)" % (in_order, applied), 4, undecided=aliased)
+                   "(in order: %s, applied: %s)" % (in_order, applied), 4,
+                   undecided=aliased or (cond_kind is None and _table_dispatch(n, tv[0])))
     wit = cfg.path_avoiding(cfg.entry, cfg.exit, rebuild | replay_heads)
     chk.ob("R12.4", "LazyIntervalTree.get:every-path-rebuilds-or-replays", wit is None, f.loc(),
            "a path through get() returns the tree without rebuilding it or applying the queued "
